@@ -465,7 +465,7 @@ def harnesses(tier):
                 reach=('end', 'accepted', 'rejected'), sanitize=True,
                 tests=[dict(_job=0, neg=0, upper_e=0, **{k: 48 + (j * 7 + 3) % 10 for j, k in enumerate(shape_inputs(shapes(tier)[0]))})],
                 wall=900 if tier == 'quick' else 3000),
-        Harness('timestamp_roundtrip', 'text', h_ts_roundtrip, mode='INT', setup=install_time_models, testgen=gen_ts,
+        Harness('timestamp_roundtrip', 'text', h_ts_roundtrip, mode='INT', setup=install_time_models, testgen=gen_ts, wall=900 if tier == 'quick' else 3000,
                 desc='for every broken-down time gmtime_r can return for a uint32 timestamp (all fields symbolic, day <= length of that month): parse_timestamp(to_iso_all(t)) == exact calendar value of those fields, 20 characters, fully consumed',
                 bounds='none on the timestamp (1970-01-01 .. 2106-02-07); libc law timegm(gmtime_r(t)) = t assumed'),
         Harness('timestamp_parse', 'text', h_ts_parse, mode='INT', setup=install_time_models,
